@@ -2,13 +2,16 @@
 import os
 import random
 from vcheck import gen_all, core
-from harness import enc_corr as ec, circgen as cg
+from harness import enc_corr as ec, circgen as cg, nd_corr as nc
 
 THEOREMS = ['C15_bp_roundtrip', 'C15_bp_roundtrip_nd', 'C15_bp_roundtrip_vec', 'C15_mv_roundtrip', 'C15_bit_planes',
             'C15_axis_convention', 'C15_single_pattern', 'C15_characters_one_vector',
             'C15_render_parse', 'C15_alias_table', 'C15_str_roundtrip', 'C15_mv_str_roundtrip',
             'C15_unpackbits_testbit', 'C15_pack_unpack', 'C15_unpack_pack', 'C15_pack_extend',
-            'C15_popcount_table', 'C15_popcount_spec']
+            'C15_popcount_table', 'C15_popcount_spec',
+            # any rank, on the shape-polymorphic array model (Model/NdArray.v, Model/MvWrappers.v)
+            'C15_roundtrip_any_rank', 'C15_roundtrip_rank1', 'C15_roundtrip_get', 'C15_axis_convention_any_rank',
+            'C15_axis_convention_rank1', 'C15_swapaxes_index', 'C15_conv_low_rank', 'C15_any_rank_example']
 
 
 def _run_case(kind, d):
@@ -83,6 +86,61 @@ def gen_inputs(ck, rng):
     return out
 
 
+def any_rank(ck):
+    """mv_to_bp / bp_to_mv / mvarray / bparray and the numpy primitives they use, at ranks 0..5 (axes of length 0 and 1 included),
+    against the shape-polymorphic Coq model; plus the round trip / bit-plane layout stated by multi-index on the implementation's results."""
+    from kyupy import logic
+    okc, log = core.coq_make(['theories/Model/NdCorr.vo'], timeout=600)
+    if not okc:
+        ck.obligation('build Model/NdCorr.vo', False, 'correspondence', core.coq_first_error(log))
+        return
+    rng = random.Random(ck.seed * 7919 + 1515)
+    n = ck.scale(110, 1500)
+    cases, owner, descs, fails = [], [], [], []
+    for i in range(n):
+        c, d, f = nc.conv_cases(rng, logic)
+        descs.append(d)
+        ck.count(1, f'any-rank:mv_to_bp:{len(d["shape"])}-D')
+        ck.nontrivial(('any-rank', str(d['shape']), str(d['data'])[:40]))
+        for x in c:
+            cases.append(x)
+            owner.append(i)
+        for key, msg in f:
+            fails.append((key, d, msg))
+        extra = nc.bp_case(rng, logic) + nc.primitive_cases_c15(rng, logic) + (nc.args_cases(rng, logic) if i % 2 == 0 else [])
+        for x in extra:
+            cases.append(x)
+            owner.append(None)
+            ck.count(1, 'any-rank:' + x.split(' ', 1)[0])
+    chunk = 150
+    chunks = [cases[i:i + chunk] for i in range(0, len(cases), chunk)]
+    outs = ck.coq_eval_many('nd', [nc.cases_file(ch) for ch in chunks], jobs=12)
+    bad = [ci * chunk + j for ci, (okk, out) in enumerate(outs) for j in ((cg.parse_nat_list(out) if okk else None) or [])]
+    ran = all(okk and cg.parse_nat_list(out) is not None for okk, out in outs)
+    detail = ''
+    if not ran:
+        detail = next((core.coq_first_error(out) for okk, out in outs if not okk or cg.parse_nat_list(out) is None), '')
+    elif bad:
+        detail = 'model and implementation differ on: ' + ' ;; '.join(cases[b][:300] for b in bad[:4])
+    ck.obligation(f'Coq model Model/NdArray.v + Model/MvWrappers.v = numpy / logic on {len(cases)} calls at ranks 0..5 (swapaxes, packbits axis -1 / -2, '
+                  'unpackbits, logic.unpackbits / packbits, mv_to_bp, bp_to_mv, mvarray, bparray; results and exceptions)', ran and not bad,
+                  'correspondence', detail)
+    ck.rule('any rank: mv arrays of rank 0..5 with axes of length 0 / 1 and pattern counts 0..25, values < 8 (15% up to 255); random bit-parallel bytes with 0..9 planes; '
+            'swapaxes / packbits / unpackbits on random arrays; mvarray / bparray on generated argument lists incl. nested groups (flat array model)')
+    seen = set()
+    for key, d, msg in fails:
+        if key in seen:
+            continue
+        seen.add(key)
+        ck.fail(key, f'logic.mv_to_bp/bp_to_mv: {msg}', {'component': 'logic.mv_to_bp/bp_to_mv', 'case_kind': 'any_rank', 'input': d, 'actual': msg})
+    if not fails and bad:
+        b = bad[0]
+        d = descs[owner[b]] if owner[b] is not None else {'call': cases[b][:200]}
+        ck.fail('model:any_rank', 'the implementation differs from the Coq array model (for which the any-rank C15 theorems are proved) on a generated input',
+                {'component': 'logic (array model)', 'case_kind': 'any_rank', 'input': d, 'coq_case': cases[b][:6000],
+                 'actual': 'implementation result differs from Model/MvWrappers.v', 'model_case': True})
+
+
 def run(ck):
     res = gen_all.generate(['LogicTables'])
     ck.obligation('evaluate interpret / mv_str / _pop_count_lut and read the documented aliases -> Gen/LogicTables.v',
@@ -152,6 +210,7 @@ def run(ck):
                 ec.NOTES.add(f'docstring of logic.{name} quotes the code {code} but {name} = {getattr(lg, name):#05b} (documentation only)')
     except Exception:
         pass
+    any_rank(ck)
     for note in sorted(ec.NOTES):
         ck.assumptions.append('outside the stated domain (observed, not counted as violation): ' + note)
     seen = set()
@@ -168,8 +227,43 @@ def run(ck):
                  'model_case': True})
 
 
+def replay_any_rank(rp):
+    import numpy as np
+    from kyupy import logic
+    if rp.get('model_case'):
+        if len(rp.get('coq_case', '')) >= 6000:
+            return True
+        ck = core.Check('C15', 'quick', 0)
+        okk, out = ck.coq_eval('replay', nc.cases_file([rp['coq_case']]))
+        r = cg.parse_nat_list(out) if okk else None
+        return r is None or bool(r)
+    d = rp['input']
+    x = np.array(d['data'], dtype=np.uint8).reshape(d['shape'])
+    try:
+        bp = logic.mv_to_bp(x)
+        back = logic.bp_to_mv(bp)
+    except Exception:
+        return len(d['shape']) >= 1
+    xs = tuple(d['shape']) if len(d['shape']) >= 2 else (d['shape'][0], 1)
+    p = xs[-1]
+    nb = -(-p // 8)
+    if tuple(bp.shape) != xs[:-1] + (3, nb) or tuple(back.shape) != xs[:-1] + (8 * nb,):
+        return True
+    want = np.zeros(xs[:-1] + (8 * nb,), dtype=np.uint8)
+    want[..., :p] = x.reshape(xs) & 7
+    if not np.array_equal(back, want):
+        return True
+    for k in range(3):
+        for j in range(8 * nb):
+            if not np.array_equal((bp[..., k, j // 8] >> (j % 8)) & 1, (want[..., j] >> k) & 1):
+                return True
+    return False
+
+
 def replay(rp):
     kind, d = rp['case_kind'], rp['input']
+    if kind == 'any_rank':
+        return replay_any_rank(rp)
     if kind == 'tables':
         return ec.table_oracle() is not None
     try:
